@@ -24,7 +24,7 @@ ASSUMPTIONS = [
     'median / trimmed-mean variants: unweighted, n <= 3 (sorting forks n! ways); third moments and expected_variance: n = 2 (cubic identities at n >= 3 exceed the nonlinear solver budget: outside the claim)',
 ]
 BOUNDS = {'quick': dict(n='2..3', weight_vectors=3), 'thorough': dict(n='2..4', weight_vectors=6)}
-BUDGET = {'quick': 400, 'thorough': 3600}
+BUDGET = {'quick': 1800, 'thorough': 3600}
 
 WEIGHTS = {2: [None, [1.0, 3.0], [0.5, 0.0]], 3: [None, [0.5, 0.0, 2.0], [1.0, 1.0, 2.0]], 4: [None, [1.0, 2.0, 0.0, 0.25]]}
 
